@@ -222,3 +222,15 @@ PROPS["C10"] = {
     "outside_claim": ["the manifest version hash (json.Marshal + SortJSON + SHA-256 are reflection/crypto code outside the encodable fragment)", "attribute lists inside resource units (empty)", "more than 3 records per group"],
     "assumptions": ["on-chain and manifest replica counts are >= 1 (both are validated before this comparison)"],
 }
+
+C18_Q = ["Harness_C18_faithful_1x1", "Harness_C18_faithful_2x1", "Harness_C18_faithful_1x2", "Harness_C18_determinism_2x1", "Harness_C18_determinism_1x2"]
+PROPS["C18"] = {
+    "jobs": [{"pkg": "sdl", "files": ["harness/C18/sdl.go"], "quick": C18_Q,
+              "thorough": C18_Q + ["Harness_C18_faithful_2x2", "Harness_C18_faithful_1x1e2", "Harness_C18_determinism_2x2"], "opts": {"timeout": 30000},
+              "reach": {"Harness_C18_faithful_1x1": ["translated", "document-valid"]}}],
+    "bounds": {"quick": "decoded SDL v2 value: <=2 services x <=2 placements (not both 2 in quick) x <=2 compute profiles, 1 expose per service (thorough 2) with symbolic port/as/proto/to/global, symbolic 1-byte image suffix/command/argument/env value, symbolic counts, cpu/memory/storage and prices inside the chain's limits; determinism: two runs with every Go map iteration order explored independently",
+               "thorough": "2x2 services x placements, 2 exposes"},
+    "stubs": COMMON_STUBS + ["sort.Slice/sort.Strings -> real sort code with an engine swapper", "regexp (service names, env names, hostnames) -> native evaluation on concrete strings"],
+    "outside_claim": ["YAML parsing and unit-string parsing (yaml.Unmarshal, units.go): the claim starts at the decoded v2 value, so 'any reordering of YAML mapping keys' is covered as 'any Go map iteration order'", "the version hash (json.Marshal/SortJSON/SHA-256)"],
+    "assumptions": ["service/placement/profile names are concrete"],
+}
